@@ -111,6 +111,20 @@ def roots(size: int, rich: bool = True):
     return out
 
 
+def sharp_programs():
+    """Shapes beyond the size bound, one family per shortcut visible in the code: multi-clause cond (if / elif / else chains)."""
+    out = []
+    conds = [("c", 0), ("c", 1), ("call", "ident", (("c", 0),)), ("call", "ident", (("c", 1),)), ("call", "fail", (("c", 0),))]
+    br = lambda k: ("call", "inc", (("c", k),))  # noqa: E731
+    for c1 in conds:
+        for c2 in conds:
+            out.append(("condn", (c1, br(10), c2, br(20), br(30))))
+            out.append(("condn", (c1, ("c", 10), c2, ("c", 20), ("c", 30))))
+            for c3 in conds[:3]:
+                out.append(("condn", (c1, br(10), c2, br(20), c3, br(30), br(40))))
+    return out
+
+
 def programs(max_size: int, rich: bool = True):
     out = []
     for s in range(1, max_size + 1):
@@ -138,7 +152,7 @@ def _children(ast):
                     yield y[1]
 
 
-KINDS = {"c", "call", "kwcall", "forkjoin", "tags", "catch", "nout", "throw", "getitem", "apply_func", "op+", "partial", "cond",
+KINDS = {"condn", "c", "call", "kwcall", "forkjoin", "tags", "catch", "nout", "throw", "getitem", "apply_func", "op+", "partial", "cond",
          "list", "map", "flat_map", "seq", "catch_all", "map_partial", "tuple", "dict", "set", "nt", "dc"}
 
 
@@ -213,6 +227,8 @@ def build(ast, T=None, opts=None):
             return task(a[1]).partial(*[b(x) for x in a[2]])(*[b(x) for x in a[3]])
         if k == "cond":
             return cond(b(a[1]), b(a[2]), b(a[3]))
+        if k == "condn":
+            return cond(*[b(x) for x in a[1]])
         if k == "list":
             return [b(x) for x in a[1]]
         if k == "tuple":
@@ -376,6 +392,15 @@ def ref(ast, T=None) -> frozenset:
         return combine(parts, lambda *a: apply_task(ast[1], a, {}))
     if k == "cond":
         return seq_bind(r(ast[1]), lambda p: r(ast[2]) if p else r(ast[3]))
+    if k == "condn":
+        parts = ast[1]
+
+        def clause(i):
+            if i == len(parts) - 1:
+                return r(parts[i])  # the 'otherwise' expression
+            return seq_bind(r(parts[i]), lambda p: r(parts[i + 1]) if p else clause(i + 2))
+
+        return clause(0)
     if k == "list":
         return combine([r(x) for x in ast[1]], lambda *a: V(list(a)))
     if k == "tuple":
